@@ -616,13 +616,26 @@ def run(ctx):
         preamble = "Definition NOSTAT : list (N * list expr * expr) := [].\n" + "".join(all_pre)
         bad = ctx.coq_failing(cases, "ok", imports=IMPORTS, preamble=preamble, shard=max(40, (len(cases) + 1) // 2), ty="case")
         total_cases += len(cases)
+        # the model's components for all the failing cases of the batch, in one Coq run
+        comps_of = {}
+        if bad:
+            import re as _re
+            body = preamble + "".join(
+                ("Definition c_%d : case := %s.\nEval vm_compute in (ok_struct c_%d, ok_value c_%d, ok_fv c_%d, ok_idem c_%d, hyp_ok c_%d, "
+                 "model_out c_%d, model_raises c_%d, model_div0 c_%d).\n") % ((i, cases[i]) + (i,) * 8) for i in bad)
+            try:
+                out = ctx.coq_run(body, ["UPV.Base.Cases"] + IMPORTS)
+                parts = _re.split(r"^\s*= ", out, flags=_re.M)[1:]
+                for i, part in zip(bad, parts):
+                    comps_of[i] = "= " + " ".join(part.split())[:4000]
+            except Exception as ex:  # keep going: the Python oracle still classifies the cases
+                comps_of = {i: "coq error: %s" % str(ex)[-300:] for i in bad}
         for i in bad:
             c = raw[i]
             wc = worlds[c["world"]]
             w, names, interps, objs_tab = wc["w"], wc["names"], wc["interps"], wc["objs_tab"]
             e, o1, o2 = c["expression"], c["out"], c["out2"]
-            comps = ctx.coq_show("(ok_struct c, ok_value c, ok_fv c, ok_idem c, hyp_ok c, model_out c, model_raises c, model_div0 c)", imports=IMPORTS,
-                                 preamble=preamble + "Definition c : case := %s.\n" % cases[i])
+            comps = comps_of.get(i, "")
             # the property itself, decided by the independent Python evaluator on the implementation's output
             prop_fails, why = False, []
             if o1 is None:
